@@ -193,7 +193,7 @@ theorem szCmdC_satisfies_spec (l : Limits) (hl : LimsOk l) (c : Ctor) (args : Li
       subst hn
       have h1 := (saveSize_isSome (valNested (d.toNat - 1)) 0).mp (by simpa [deepCopyOk] using hok)
       rw [valNested_nest] at h1
-      have h25 : maxSaveDepth = 25 := rfl
+      have h25 : 1 ≤ maxSaveDepth := by decide
       omega
     · exact Bnd_err _
   case restore_nested =>
@@ -205,7 +205,7 @@ theorem szCmdC_satisfies_spec (l : Limits) (hl : LimsOk l) (c : Ctor) (args : Li
       subst hn
       have h1 := (saveSize_isSome (valNested (d.toNat - 1)) 0).mp (by rw [← restoreWalk_eq]; exact hok)
       rw [valNested_nest] at h1
-      have h25 : maxSaveDepth = 25 := rfl
+      have h25 : 1 ≤ maxSaveDepth := by decide
       omega
     · exact Bnd_err _
   case restore_array =>
